@@ -292,15 +292,11 @@ MapLower == [ c \in { <<"C", "G", x>> : x \in Bases } |-> "z" ]
 (* pysam.FastaFile.fetch(contig, a, b): ValueError for a < 0, silently truncated at the contig end *)
 Err == << "ValueError" >>
 Fetch(ref, a, b) == IF a < 0 THEN Err ELSE [ i \in 1 .. (IF b > Len(ref) THEN Len(ref) - a ELSE b - a) |-> Upper(ref[a + i]) ]
-(* Python slicing semantics, used by the "negative_wraps" deviation: ref[a:b] with negative a counted from the end *)
-Slice(ref, a, b) == LET a2 == IF a < 0 THEN (IF Len(ref) + a < 0 THEN 0 ELSE Len(ref) + a) ELSE a
-                        b2 == IF b > Len(ref) THEN Len(ref) ELSE b
-                    IN [ i \in 1 .. (IF b2 > a2 THEN b2 - a2 ELSE 0) |-> Upper(ref[a2 + i]) ]
 RevComp(s) == [ i \in DOMAIN s |-> Comp(s[Len(s) + 1 - i]) ]
 (* taps.py:66-135 position_to_context(ref_base = target, observed_base = consensus) *)
 PositionToContext(ref, p, qbase) ==
     LET ctx == IF target = "C" THEN Fetch(ref, p, p + 3)
-               ELSE LET o == IF Variant = "negative_wraps" THEN Slice(ref, p - 2, p + 1) ELSE Fetch(ref, p - 2, p + 1) IN
+               ELSE LET o == IF Variant = "context_offset" THEN Fetch(ref, p - 1, p + 2) ELSE Fetch(ref, p - 2, p + 1) IN
                     IF o = Err THEN o
                     ELSE IF Variant = "context_not_reverse_complemented" THEN o
                     ELSE IF Variant = "context_complement_only" THEN [ i \in DOMAIN o |-> Comp(o[i]) ]
@@ -336,7 +332,8 @@ TagRead ==
            tot == IF Variant = "totals_per_read" THEN Totals(xmcalls)
                   ELSE IF Variant = "mc_omits_chh" THEN [Totals(calls) EXCEPT !.MC = Totals(calls).sZ + Totals(calls).sX]
                   ELSE Totals(calls)
-       IN tagged' = Append(tagged, [ al |-> r.al, xm |-> xm, tot |-> tot ])
+           xmout == IF Variant = "xm_only_calls" THEN SelectSeq(xm, LAMBDA c : c # Dot) ELSE xm
+       IN tagged' = Append(tagged, [ al |-> r.al, xm |-> xmout, tot |-> tot ])
     /\ ri' = ri + 1
     /\ UNCHANGED <<scn, pc, target, fi, tally, cons, todo, calls>>
 Finish ==
@@ -354,17 +351,17 @@ Spec == Init /\ [][Next]_vars
 (* being tagged (later states carry the same calls / reads), the whole-molecule verdict at the end *)
 PT == Target(MolRev(AbsFrags(scn.frags)), scn.conv)
 PF == AbsFrags(scn.frags)
-NoCallClause(names) == pc = "call" => LET fr == PF t == PT IN
-                           \A p \in DOMAIN calls : CallClause(scn.ref, t, fr, p, calls[p]) \notin names
+(* (each state with pc = "call" checks the call added last; every prefix is a reachable state)     *)
+NoCallClause(names) == (pc = "call" /\ calls # Empty) =>
+                           LET p == MaxOf(DOMAIN calls) IN CallClause(scn.ref, PT, PF, p, calls[p]) \notin names
 Inv_C14_OnTarget    == NoCallClause({"Inv_C14_OnTarget"})
 Inv_C14_DoveSafe    == NoCallClause({"Inv_C14_DoveSafe"})
 Inv_C14_OnConsensus == NoCallClause({"Inv_C14_OnConsensus"})
 Inv_C14_Letter      == NoCallClause({"Inv_C14_Letter", "Inv_C14_Letter_alphabet"})
 Inv_C14_Case        == NoCallClause({"Inv_C14_Case"})
 Inv_C14_XMLen       == \A i \in DOMAIN tagged : Len(tagged[i].xm) = Len(tagged[i].al)
-Inv_C14_XMLetter    == pc = "tag" => LET fr == PF t == PT IN
-                           \A i \in DOMAIN tagged : \A k \in DOMAIN tagged[i].xm :
-                               tagged[i].xm[k] # Dot => CallClause(scn.ref, t, fr, tagged[i].al[k].p, tagged[i].xm[k]) = "ok"
+Inv_C14_XMLetter    == (pc = "tag" /\ tagged # <<>>) => LET fr == PF t == PT r == tagged[Len(tagged)] IN
+                           \A k \in DOMAIN r.xm : r.xm[k] # Dot => CallClause(scn.ref, t, fr, r.al[k].p, r.xm[k]) = "ok"
 Inv_C14_Totals      == pc = "tag" => LET tt == Totals(calls) IN
                            \A i \in DOMAIN tagged : \A k \in DOMAIN TotalTags : tagged[i].tot[TotalTags[k]] = tt[TotalTags[k]]
 (* the whole-molecule verdict used by the trace spec agrees with the clause-wise invariants *)
